@@ -38,11 +38,20 @@ func replyMonitor(sc *Scenario, impl *ImplRun) []MonitorViolation {
 	}
 	final := map[key]int{} // op index of the final reply
 	issued := map[key]bool{}
+	ambiguous := map[key]bool{}
 	var out []MonitorViolation
 	for i, r := range impl.Results {
 		op := r.Op
 		if op.Kind == "msg" && op.M != nil && op.M.Kind == "call" && r.Failed == "" {
 			k := key{op.Sess, fmt.Sprint(op.M.Req)}
+			if _, done := final[k]; issued[k] && !done {
+				// a CALL re-using the request id of a call that is still
+				// pending (a further chunk, or a duplicate that may be
+				// refused on its own): which reply belongs to which CALL
+				// message is not determined by the property; the model
+				// comparison still covers these histories
+				ambiguous[k] = true
+			}
 			issued[k] = true
 			delete(final, k)
 		}
@@ -65,6 +74,9 @@ func replyMonitor(sc *Scenario, impl *ImplRun) []MonitorViolation {
 				continue
 			}
 			k := key{o.Recv, req}
+			if ambiguous[k] {
+				continue
+			}
 			if !issued[k] {
 				out = append(out, MonitorViolation{Property: "C02", Sig: "reply-for-request-not-issued", OpIndex: i,
 					What: fmt.Sprintf("session %d received %s for request %s it never issued", o.Recv, o.Msg.CanonString(), req)})
